@@ -73,13 +73,18 @@ def param_specs(cost, p, rng):
     if cost == "GaussianVarCost":
         return [("optim", None, "array"), ("scalar", [0.5, 2.0], "array"), ("len1", [[-0.5], [0.7]], "array"),
                 ("percol", [m, v], "array"), ("percol-list", [m, v], "list"),
-                ("scalarmean-percolvar", [0.25, v], "array"), ("percolmean-scalarvar", [m, 1.3], "array")]
+                ("scalarmean-percolvar", [0.25, v], "array"), ("percolmean-scalarvar", [m, 1.3], "array"),
+                # valid fixed variances far from 1 (data recorded in small / large units): no floor applies to a parameter the user gives
+                ("scalar-tinyvar", [0.5, 1e-10], "array"), ("scalar-hugevar", [0.5, 1e8], "array")]
     a = rng.normal(size=(p, p))
     cov = np.round(a @ a.T + np.eye(p), 2)
     cov = ((cov + cov.T) / 2).tolist()
     return [("optim", None, "array"), ("scalar", [0.5, 1.5], "array"), ("percol-matrix", [m, cov], "array"),
             ("scalarmean-matrix", [-0.3, cov], "array"), ("len1mean-matrix", [[0.2], cov], "array"),
-            ("percol-scalarcov", [m, 0.8], "array"), ("percol-matrix-list", [m, cov], "list")]
+            ("percol-scalarcov", [m, 0.8], "array"), ("percol-matrix-list", [m, cov], "list"),
+            # valid positive-definite covariances with tiny / huge eigenvalues (small / large units)
+            ("percol-tinyscalarcov", [m, 1e-10], "array"), ("percol-tinymatrix", [m, (np.array(cov) * 1e-10).tolist()], "array"),
+            ("percol-hugematrix", [m, (np.array(cov) * 1e8).tolist()], "array")]
 
 
 def make_param(cost, jparam, container):
